@@ -71,6 +71,10 @@ CHECKS["C15"] = ("Coq theorems: protocol-specific definition before generic (any
     "oracle: declarative override, specific-first lookup, default fallback, typed accessors equal the numeric content.",
     TB + "PARTIAL: the override-through-hierarchy statement is correspondence + oracle only. DoIP accessors compared through the generic value path.",
     "Rocq/Coq proof (lookup precedence) + correspondence + declarative oracle", "DESIGN.md §3 C15")
+CHECKS["C14"] = ("Coq theorems for all candidate lists, all deterministic ECUs and all match oracles: the loop reports the first candidate with a pattern all of whose parameters match; outcome independent of caching; only identification requests of the candidates are issued; "
+    "with caching no request is issued twice (cache-consistency and NoDup invariants by induction over parameters/patterns/variants). Model tied to VariantMatcher by correspondence on generated ECU-/base-variant databases x all response functions x cache on/off.",
+    TB + "`matches` (decode + path walk) is a Section variable; the harness instantiates it with an independent reference for plain and structured values; float/bytes/DTC/field comparisons are not exercised.",
+    "Rocq/Coq proof (loop invariants) + correspondence over all response functions", "DESIGN.md §3 C14")
 NA_REASON = "check not built yet in this round (work in progress; DESIGN.md §6 gives the order of work)"
 def main():
     checks = []
